@@ -19,7 +19,7 @@ an assignment / augmented assignment, or of a return); its returns are in tail p
 import ast
 import copy
 
-MAXROUNDS = 4
+MAXROUNDS = 6
 
 
 def _is_private(name):
@@ -110,7 +110,9 @@ class _Helper:
 
 
 def _eligible_def(fn):
-    if fn.decorator_list or fn.args.vararg or fn.args.kwarg:
+    if fn.args.vararg or fn.args.kwarg:
+        return False
+    if any(not (isinstance(d, ast.Name) and d.id == 'staticmethod') for d in fn.decorator_list):
         return False
     for n in ast.walk(fn):
         if n is fn:
@@ -511,6 +513,11 @@ def expand(trees, keep=frozenset()):
                             if c is not None and _call_name(c) in good:
                                 good[_call_name(c)] += 1
         todo = {nm for nm in cands if good[nm] > 0 and good[nm] == mentions[nm]}
+        # leaves first: a helper that itself calls another helper of this round waits for the next round (its copies
+        # would otherwise carry calls of a definition that is removed at the end of the round)
+        leaf = {nm for nm in todo if not any(isinstance(x, ast.Call) and _call_name(x) in todo and _call_name(x) != nm
+                                             for x in ast.walk(cands[nm].node))}
+        todo = leaf or set()
         if not todo:
             break
         done = set()
